@@ -274,7 +274,7 @@ func TestC19(t *testing.T) {
 			for k := rapid.IntRange(1, 3).Draw(t, "nwild"); k > 0; k-- {
 				c.Wild = append(c.Wild, wildC19{
 					Name: rapid.SampledFrom(api.WildFor(typ)).Draw(t, "wildname"),
-					V: rapid.SampledFrom([]int64{-1, -2, 0, 3, 4, 127, 128, 200, 255, 268435455, 268435456, 1 << 31, 1<<32 - 1, 1 << 35, 1 << 40, 1<<63 - 1, -1 << 63}).Draw(t, "wildv"),
+					V:    rapid.SampledFrom([]int64{-1, -2, 0, 3, 4, 127, 128, 200, 255, 268435455, 268435456, 1 << 31, 1<<32 - 1, 1 << 35, 1 << 40, 1<<63 - 1, -1 << 63}).Draw(t, "wildv"),
 				})
 			}
 			class = "under-construction+out-of-range-arguments/"
